@@ -202,6 +202,15 @@ def gen_api_history(seed, nops=30, malformed=0.25, with_io=None, caller_mut=0.0,
                     if S.frames[fi][0]: L.append("smut %d pt %d %s %s %s %s" % (fi, r.randrange(S.frames[fi][0]), g.fbits(), g.fbits(), g.fbits(), g.fbits()))
                 if r.random() < 0.3:
                     L.append("cmut %s addpt %s" % (v, point_str(g, g.simple_name(b"Z")))); L.append("dump")
+                if S.frames and r.random() < 0.5:
+                    # a by-value copy of a stored frame used as a template: refilled through Frame::add, then (sometimes) appended
+                    fi = r.randrange(len(S.frames)); tv = "t%d" % len(L)
+                    p2, s2 = frame_spec(g, pn, cn_eff, ns)
+                    L.append("cpframe %s %d" % (tv, fi)); L.append("refill %s %s %s" % (tv, p2, s2)); L.append("dump")
+                    if r.random() < 0.5:
+                        L.append("frame %s" % tv)
+                        if S.frame_ok(pn, cn_eff, ns): S.store(pn, cn_eff, ns, None)
+                        L.append("refill %s %s %s" % (tv, p, s_)); L.append("dump")
         elif c < 0.40:  # point by name
             n = g.simple_name(b"P") if not bad else (r.choice(S.pts) if S.pts and r.random() < 0.6 else g.name(0, special=0.3))
             L.append("point " + xhex(n)); g.count("op_point")
